@@ -6,7 +6,7 @@ claim("C01", "translation_validation",
       "DESIGN.md 3/C01")
 claim("C02", "translation_validation",
       "Same relational harnesses, gas observables: gas remaining before the instruction and cost charged for it (per-instruction callback), gas left after the instruction, gas handed back by every frame routine, for symbolic 64-bit gas - so 'out of gas at the same instruction for every gas limit' is part of the step obligation; refund counter changes are compared as world events.",
-      "As C01. Warm/cold access-list state and storage originals are arbitrary but equal on both sides (same uninterpreted readers).",
+      "As C01, plus: the memory-size and dynamic-gas function of every table entry of a fork against go-ethereum's on the same symbolic operands, gas and world (RelGas: Spurious Dragon, Berlin, Shanghai quick; every fork thorough; fee compared for expansions <= 128 B), and the real modexp gas function against go-ethereum's on boundary length fields (ModexpGas). Warm/cold access-list state and storage originals are arbitrary but equal on both sides (same uninterpreted readers).",
       "DESIGN.md 3/C02")
 claim("C03", MC,
       "Panic-freedom and closed bookkeeping decided by the solver over the real code of the journal instructions, the memory-name loader, the Artela precompile bodies and the CALL frame routine: every slice/index/nil/division/make obligation on every feasible path is a query; unsat for all of them within the stated buffer bounds.",
@@ -30,7 +30,7 @@ claim("C07", MC,
       "DESIGN.md 3/C07")
 claim("C08", MC,
       "The call-tree node of the real CALL frame carries caller, target, value, supplied gas, calldata as at entry and ret/err/leftover exactly as returned, on every path (refused, run, failed later).",
-      "CALL frame only so far; CREATE/CREATE2 and the memory-aliasing variant are listed as not yet covered in the evidence.",
+      "CALL and CREATE/CREATE2 frames; the CALL instruction on overlapping argument/return areas followed by later stores (identity precompile included), memory 64 B with offsets in steps of 8.",
       "DESIGN.md 3/C08")
 claim("C09", MC,
       "VVJNAL and VRJNAL executed on symbolic slot, storage word(s), offset, width and type id against an independent Solidity-layout oracle; invalid operands must be rejected and record nothing.",
@@ -38,11 +38,11 @@ claim("C09", MC,
       "DESIGN.md 3/C09")
 claim("C10", MC,
       "Attribution: journal harnesses check account and call index of the recorded entry; symbolic histories of enter/exit/journal over 2 accounts x 2 keys are compared with a list model (chronological, repeats collapsed, no mixing).",
-      "Histories <= 4 operations quick / 6 thorough; the frame-routine part (which address a DELEGATECALL frame executes as) is covered for CALL only so far.",
+      "Histories <= 4 operations quick / 5 thorough over the tracer API; the stamp is also checked inside and after every frame routine (CALL, CALLCODE, DELEGATECALL, STATICCALL, CREATE/CREATE2) started below two enclosing call-tree nodes.",
       "DESIGN.md 3/C10")
 claim("C11", MC,
       "Key-tree lookups: each of the six registration instructions and both journal instructions checked from an arbitrary state: name/index path and (slot, offset, type) reach the same record, refused operations add nothing.",
-      "Single registration step on top of an optional registered parent; longer registration histories are being added (see evidence).",
+      "One registration step on top of an optional registered parent, two-registration histories with arbitrary (possibly equal) slots/offsets/types/names followed by a journal entry, arbitrary 256-bit offsets beyond 31 refused everywhere, children with repeated index keys and slots (aliases).",
       "DESIGN.md 3/C11")
 claim("C12", MC,
       "Frame condition of all eight journal instructions from an arbitrary state: stack below operands, memory bytes and length, pc, world journal untouched; malformed operands give an error.",
@@ -61,8 +61,8 @@ claim("C18", "translation_validation",
       "One instruction from an arbitrary state for every opcode byte (Shanghai table quick; Frontier and Berlin tables thorough) and one frame per routine (Shanghai, Frontier quick); the induction over steps and nesting depth is on paper. The ported tracer packages (struct logger, prestate, 4byte, mux) are compared only through this event stream, not method by method; JSON encoding is outside.",
       "DESIGN.md 3/C18")
 claim("C20", MC,
-      "Work counters (state reads counted by the stub, bytes allocated/copied accumulated by the engine as terms) asserted against a bound for the journal instructions, the memory-name loader and the Artela precompiles.",
-      "VRJNAL long strings are the subject of a known finding (data-driven loop under a flat fee).",
+      "Work counters (state reads counted by the stub, bytes allocated/copied accumulated by the engine as terms) asserted against a bound for the journal instructions, the memory-name loader, the Artela precompiles and one real interpreter step per opcode; every allocation that leaves the encoded buffer bound is handed to the harness with its symbolic size and must be covered by the gas charged before it; the real modexp body and gas function behind RunPrecompiledContract; no standard instruction charged less than go-ethereum for the same operands.",
+      "VRJNAL long strings are the subject of a known finding (data-driven loop under a flat fee). Work inside the remaining summarised kernels (hash and curve precompiles, the exponentiation itself) is not seen; gas supplied to modexp <= 2^40.",
       "DESIGN.md 3/C20")
 claim("C15", MC,
       "TLOAD/TSTORE/MCOPY executed through the real interpreter loop (arbitrary stack, memory, gas, static flag) on the Cancun table and on three earlier tables: transient slot per executing address, write refused in static context, exact warm-access fee; MCOPY against a memmove oracle on the zero-extended pre-state with exact copy+expansion gas for case-split small operands, and must-fail / coverage obligations for operands up to 2^256; the three bytes are invalid instructions before Cancun.",
